@@ -245,6 +245,14 @@ Theorem C33_drop_column_leaves_index :
 Proof. exact drop_column_leaves_index. Qed.
 Print Assumptions C33_drop_column_leaves_index.
 
+Theorem C33_change_column_leaves_index :
+  exists h st, clean h init /\ known (run h init) st = true /\
+    let s := step_state (run h init) st in
+    exists x tb, alookup nIX (s_sidx s) = Some x /\ alookup (qual public nT0) (s_tabs s) = Some tb /\
+                 forallb (fun c => mem_name c (col_names (t_schema tb))) (si_cols x) = false.
+Proof. exact change_column_leaves_index. Qed.
+Print Assumptions C33_change_column_leaves_index.
+
 (** ... and the next DML or index DDL on the table panics *)
 Theorem C33_panic_after_drop_column_delete :
   snd (step (run [mkT0; Insert nT0 [[1; 10]]; Insert nT0 [[2; 20]]; mkIX; DropColumn nT0 nB false] init)
